@@ -7,10 +7,19 @@ scheduled deterministically. Model side: the Lean executable driver_timers (Driv
 running Ipfix.Timers.step; its `chk` lines evaluate Ipfix.C10.verdict (= StepOK, see
 Props/C10.verdict_none_iff) on the implementation's observations.
 
+The event model's steps are coarser than the source: a whole addTemplate is ONE step with the clock
+standing still, a callback's conditional deletion is ONE step. With a harness clock that only moves
+between steps, a change that breaks one of these assumptions (the expiry test taken out of the write
+lock, expiryTime assigned after the timer is armed) cannot be exhibited by any input. The assumptions
+are therefore tied to the source structurally: tools/timerfacts (go/ast) re-extracts the shape of
+addTemplate / the timer callback / deleteTemplateWithConds into Generated/Timers.lean at import of this
+module, and the `tie_*` theorems of Props/C10.lean are checked against it by `decide`.
+
 The small Python simulation below is used ONLY to enumerate the events that are enabled in a state
 (so that the exhaustive enumeration does not waste its depth on no-ops); it takes no part in any
 verdict.
 """
+import json
 import os
 import random
 import shutil
@@ -23,6 +32,7 @@ from gen import ipfix as W
 
 DOMS = [1, 2]
 IDS = [256, 257]
+TIMERS_LEAN = os.path.join(check.LEAN, "IpfixModel", "Generated", "Timers.lean")
 
 
 class SPEC:
@@ -45,7 +55,12 @@ class SPEC:
         "and from that moment the timer is unarmed; Stop() unarms an armed timer (f will not start) and does nothing to an f "
         "already started; Reset(d) (re)arms with deadline now+d whether or not the timer was armed, an f already started keeps running",
         "the callback does nothing observable between reading the clock and taking the collector's lock, so the harness hands the "
-        "value fixed at `cbnow` over only at `cbfin`",
+        "value fixed at `cbnow` over only at `cbfin` (tied to the source: tie_callback_is_one_conditional_delete)",
+        "granularity of the event model - addTemplate is ONE step under the write lock, in which expiryTime is assigned before the timer "
+        "is armed; the callback's only effect on the store is ONE deleteTemplateWithConds call whose condition tests the stored "
+        "template's expiryTime under the write lock, before Stop() and delete(); nothing else reads or writes expiryTime - is not "
+        "observable with a clock that moves only between steps; it is tied to the source structurally (Generated/Timers.lean, "
+        "theorems tie_* of Props/C10.lean) and a change of that structure is reported as a broken obligation, not as a failing input",
         "template TTL >= 1 second (TTL 0 selects the 1800 s default in initCollectingProcess); clock and deadlines are whole seconds",
         "strict decoding mode; packets reach decodePacket directly (no socket); one packet / one callback step at a time "
         "(the collector's mutex serialises them in the real process; lock-freedom of races is C12/C14's subject)",
@@ -54,7 +69,36 @@ class SPEC:
         "harness/cmd/harness-timers: harness-owned implementation of the collector's clock/timer interfaces (through "
         "harness/overlay/collector/verif_hooks.go: VerifClock, VerifTimer, VerifNewCollector, VerifDecodePacket, VerifTemplateKeys)",
         "real time.Timer is trusted to meet the timer contract stated in the assumptions (the proof is about the model under that contract)",
+        "tools/timerfacts (go/ast translator, no type checker: paths through addTemplate, the calls of the function literal handed to "
+        "cp.clock.AfterFunc and its deletion condition, statement order and lock state in deleteTemplateWithConds, every access to "
+        "`.expiryTime` in pkg/collector -> Generated/Timers.lean)",
     ]
+
+
+# ----------------------------------------------------------------------------------------
+# structural facts: regenerate Generated/Timers.lean at import time (check.py imports this module before it
+# builds the proofs; check.regen_facts() only knows tools/gofacts)
+
+def regen_timerfacts():
+    src = os.path.join(check.ROOT, "tools", "timerfacts")
+    out = os.path.join(check.BIN, "timerfacts")
+    os.makedirs(check.BIN, exist_ok=True)
+    with check.Lock("timerfacts"):
+        if check.newer_than(src, out):
+            r = check.run(["go", "build", "-o", out, "."], cwd=src, env=check.GOENV)
+            if r.returncode != 0:
+                if os.path.exists(TIMERS_LEAN):    # the theorems must not be checked against stale facts
+                    os.remove(TIMERS_LEAN)
+                return "timerfacts does not build: " + r.stderr[-400:]
+        r = check.run([out, check.REPO, os.path.dirname(TIMERS_LEAN)])   # honours VERIF_MUTANT_OVERLAY itself; write-if-changed
+        if r.returncode != 0:
+            if os.path.exists(TIMERS_LEAN):
+                os.remove(TIMERS_LEAN)
+            return "timerfacts cannot translate the current tree: " + r.stderr.strip()[-400:]
+    return ""
+
+
+FACTS_ERROR = regen_timerfacts()
 
 
 # ----------------------------------------------------------------------------------------
@@ -334,6 +378,12 @@ def run(ctx):
                               "impl": " ".join(got)[:400], "model": " ".join(want)[:400], "label": "packet-bytes",
                               "explained_by_predicate_failure": False})
 
+    if FACTS_ERROR:
+        # Generated/Timers.lean has been removed, so Props/C10 does not build (reported as broken by check.py);
+        # the reason is recorded here as well
+        disagreements.append({"case": -1, "op_index": 0, "ops": [], "impl": FACTS_ERROR[:400], "model": "", "label": "timerfacts",
+                              "explained_by_predicate_failure": False})
+
     for cases in gen_chunks(rng, ctx.tier, chunk):
         impl = check.exec_cases(ctx.harness, cases, shards=shards, timeout=3600)
         res = {}
@@ -417,5 +467,9 @@ def run(ctx):
     notes.append("%d cases, %d operations; every operation's full observable state compared with the model and checked by Ipfix.C10.verdict"
                  % (n_cases, n_ops))
     notes.append("packet bytes of harness-timers equal gen/ipfix.py's: %s" % okp)
+    notes.append("Generated/Timers.lean regenerated by tools/timerfacts at import of gen/c10.py" + (" FAILED: " + FACTS_ERROR if FACTS_ERROR else "")
+                 + "; the tie_* theorems of Props/C10.lean pin the event model's atomic steps to the source")
+    if os.environ.get("VERIF_MUTANT_OVERLAY"):
+        notes.append("VERIF_MUTANT_OVERLAY in effect: " + ",".join(sorted(json.loads(os.environ["VERIF_MUTANT_OVERLAY"]))))
     return {"evaluations": n_cases, "distinct_nontrivial": len(seen), "samples": samples, "distribution": dict(dist),
             "disagreements": disagreements, "predicate_failures": failures, "exhaustive": True, "notes": notes}
